@@ -50,7 +50,7 @@ LABEL_IDX = {s: i for i, s in enumerate(LABELS)}
 NLAB = 16
 GRAPHS = {1: URIRef("urn:g:1"), 2: URIRef("urn:g:2"), 3: URIRef("urn:g:3")}
 PLAIN = 50
-FORMATS = ["nt", "nquads", "turtle", "trig", "xml", "trix", "json-ld", "hext"]
+FORMATS = ["nt", "nquads", "turtle", "trig", "xml", "trix", "json-ld", "hext", "n3"]
 FMT_ID = {f: i for i, f in enumerate(FORMATS)}
 QUAD_FORMATS = ("nquads", "trig", "trix", "json-ld", "hext")
 
@@ -213,6 +213,55 @@ def _ttl_block(items, variant):
         out.append(f"{items[i][2]} {body} .\n")
         i = k
     return "".join(out)
+
+
+def path_plan(stmts, cand):
+    """The labels (indexes) of [cand] that N3 path syntax can write: the label's only statements are its
+    tag statement  L <tag> T  and one statement  x p L  of the same graph with x a constant; that statement
+    is written  x p T^e:tag  (the node that has tag T)."""
+    ok = []
+    for lab in cand:
+        n = -lab - 1
+        subj = [st for st in stmts if st[0] == n]
+        objs = [st for st in stmts if st[2] == n]
+        if len(subj) == 1 and subj[0][1] == TAGP and len(objs) == 1 and objs[0][0] > 0 \
+                and objs[0][3] == subj[0][3] and not any(st[3] == n for st in stmts):
+            ok.append(lab)
+    return ok
+
+
+def write_n3(stmts, variant=0, anon=()):
+    """Notation3: the Turtle text, with labels of [anon] written as [ ... ] or, where path_plan allows and
+    variant & 2, with the N3 path operator ^ ."""
+    paths = path_plan(stmts, anon) if variant & 2 else []
+    rest = [lab for lab in anon if lab not in paths]
+    pn = {-lab - 1 for lab in paths}
+    tagof = {st[0]: st[2] for st in stmts if st[0] in pn}
+    items = []
+    for it in _ttl_items([st for st in stmts if st[0] not in pn], rest):
+        items.append(it)
+    # the object texts of the hosts of path nodes
+    host = {}
+    for st in stmts:
+        if st[2] in pn:
+            host[(st[0], st[1], st[2])] = f"{_ttl_term(tagof[st[2]])}^{_ttl_term(TAGP)}"
+    out = []
+    k = 0
+    plain_stmts = [st for st in stmts if st[0] not in pn]
+    # _ttl_items keeps one item per non-anonymous statement in order; patch the object text of path hosts
+    plan = anon_plan(plain_stmts, rest) if rest else []
+    inner = {-lab - 1 for lab in plan}
+    j = 0
+    for st in plain_stmts:
+        if st[0] in inner:
+            continue
+        while items[j][3] is None:
+            j += 1
+        if (st[0], st[1], st[2]) in host:
+            g, key, stext, ptext, _ = items[j]
+            items[j] = (g, key, stext, ptext, host[(st[0], st[1], st[2])])
+        j += 1
+    return "@prefix e: <http://e/> .\n" + _ttl_block(items, variant)
 
 
 def write_turtle(stmts, variant=0, anon=()):
@@ -388,12 +437,12 @@ def write_hext(stmts, variant=0):
     return "".join(out)
 
 
-WRITERS = {"nt": write_nt, "nquads": write_nquads, "turtle": write_turtle, "trig": write_trig, "xml": write_xml,
+WRITERS = {"n3": write_n3, "nt": write_nt, "nquads": write_nquads, "turtle": write_turtle, "trig": write_trig, "xml": write_xml,
            "trix": write_trix, "json-ld": write_jsonld, "hext": write_hext}
 
 
 def write_doc(fmt, stmts, variant=0, anon=()):
-    if fmt in ("turtle", "trig"):
+    if fmt in ("turtle", "trig", "n3"):
         return WRITERS[fmt](stmts, variant, anon)
     return WRITERS[fmt](stmts, variant)
 
@@ -462,7 +511,7 @@ def malformed(fmt, prefix, rest, variant=0, anon=()):
         return (write_doc(fmt, prefix) + "@@@ this is not a statement .\n" + write_doc(fmt, rest))
     if fmt == "hext":
         return write_doc(fmt, prefix) + '["http://e/a", "http://e/p", \n' + write_doc(fmt, rest)
-    if fmt in ("turtle", "trig"):
+    if fmt in ("turtle", "trig", "n3"):
         more = write_doc(fmt, rest, variant).replace("@prefix e: <http://e/> .\n", "")
         return write_doc(fmt, prefix, variant, anon) + "e:a e:p .\n" + more
     if fmt == "xml":
@@ -484,12 +533,20 @@ def _run_docs(case, hook=None):
     from rdflib.plugins.parsers.nquads import NQuadsParser
     from rdflib.plugins.parsers.ntriples import NTGraphSink, W3CNTriplesParser
 
+    from rdflib import ConjunctiveGraph
+    from rdflib.plugins.stores.auditable import AuditableStore
+
     reseed = case.get("reseed")
-    store = Memory()
-    ds = Dataset(store=store)
-    plain = Graph() if case.get("plain") else None
-    if plain is not None:
-        store = plain.store
+    kind = case.get("store") or {}
+    inner = Memory()
+    # the store the front ends write through: the Memory store itself, or an AuditableStore over it
+    # (a transaction is open from the first write on; nothing commits unless the case says so)
+    store = AuditableStore(inner) if kind.get("auditable") else inner
+    plain = Graph(store=store) if case.get("plain") else None
+    if kind.get("front") == "cg":
+        ds = ConjunctiveGraph(store=store, identifier=DATASET_DEFAULT_GRAPH_ID)
+        ds.graph = ds.get_context
+    else:
         ds = Dataset(store=store)
 
     def graph_of(cid):
@@ -499,6 +556,8 @@ def _run_docs(case, hook=None):
 
     for s, p, o, g in case["init"]:
         graph_of(g).add((const_term(s), const_term(p), const_term(o)))
+    if kind.get("commit_init"):
+        store.commit()
     pid = plain.identifier if plain is not None else None
     obs = []
     tags = {}
@@ -550,7 +609,7 @@ def _run_docs(case, hook=None):
             raised = True
             if hook:
                 hook(j, e)
-        obs.append([raised, snapshot(store, pid, tags)])
+        obs.append([raised, snapshot(inner, pid, tags)])
     return obs
 
 
@@ -609,7 +668,7 @@ def c_quad(q):
     return ctuple(ctuple(cN(q[0]), cN(q[1]), cN(q[2])), cN(q[3]))
 
 
-COQ_FMT = {"nt": "NT", "nquads": "NQ", "turtle": "TTL", "trig": "TRIG", "xml": "XML", "trix": "TRIX",
+COQ_FMT = {"n3": "N3", "nt": "NT", "nquads": "NQ", "turtle": "TTL", "trig": "TRIG", "xml": "XML", "trix": "TRIX",
            "json-ld": "JLD", "hext": "HEXT"}
 IDENTITY = ("json-ld", "hext")   # only used to describe / count cases, never by the check
 
@@ -628,6 +687,7 @@ class C12(Suite):
     timeout_s = 20.0
 
     # case = {"plain": bool, "init": [[s,p,o,g]...], "reseed": k (optional),
+    #         "store": {"auditable": True, "commit_init": bool, "front": "dataset"|"cg"} (optional: AuditableStore over Memory),
     #         "docs": [{"fmt", "target", "variant", "stmts": [[s,p,o,g]...], and optionally
     #                   "anon": [labels written as [...]], "ctx": k (bnode_context dict k), "obj": k (long-lived
     #                   parser object k), "keep": True (preserve_bnode_ids), "pub": publicID,
@@ -636,7 +696,7 @@ class C12(Suite):
         plain = rng.random() < 0.2
         r = rng.random()
         if r < 0.45:
-            fmts = ["nt", "turtle", "trig", "xml"]
+            fmts = ["nt", "turtle", "trig", "xml", "n3"]
         elif r < 0.6:
             fmts = ["nt", "nquads", "turtle", "trig", "xml"]
         elif r < 0.7:
@@ -647,10 +707,17 @@ class C12(Suite):
         numeric = rng.random() < 0.12   # all-digit labels next to anonymous nodes, Turtle family
         if numeric:
             labs = [5, 6][: rng.choice([1, 2, 2])] + rng.sample(range(5), rng.choice([1, 2]))
-            fmts = ["turtle", "trig", "trig", rng.choice(fmts)]
-        sharing = (not numeric) and rng.random() < 0.18   # long-lived label dicts: bnode_context=, parser objects
+            fmts = ["turtle", "trig", "trig", "n3", rng.choice(fmts)]
+        n3twice = (not numeric) and rng.random() < 0.07   # one N3 document (same text layout) parsed again
+        if n3twice:
+            fmts = ["n3"]
+        sharing = (not numeric) and (not n3twice) and rng.random() < 0.18   # long-lived label dicts: bnode_context=, parser objects
         if sharing:
             fmts = ["nt", "nt", "nquads", "nquads", rng.choice(fmts)]
+        auditable = (not n3twice) and rng.random() < 0.15
+        if auditable:
+            # N-Quads / HexTuples need a graph-aware store and N3 a formula-aware one: they refuse an AuditableStore
+            fmts = [f for f in fmts if f not in ("nquads", "hext", "n3")] or ["nt", "turtle"]
         subj_c, obj_c = [1, 2, 8], [1, 2, 5, 6, 7, 8]
         named = [1, 2, 3] + [100 + lab for lab in labs[:1]]
         init = []
@@ -664,7 +731,9 @@ class C12(Suite):
             init.append([s, rng.choice(PREDS), o, g])
         docs = []
         ndocs = rng.choice([1, 2, 2, 3, 3, 4])
-        same = rng.random() < 0.15  # the same document parsed again and again
+        same = n3twice or rng.random() < 0.15  # the same document parsed again and again
+        if n3twice:
+            ndocs = rng.choice([2, 2, 3])
         proto = None
         for j in range(ndocs):
             fmt = rng.choice(fmts)
@@ -715,13 +784,29 @@ class C12(Suite):
                 doc["keep"] = True
             if "obj" not in doc and rng.random() < 0.15:
                 doc["pub"] = rng.choice(["http://pub.example/doc", "http://pub.example/dir/", "urn:pub:1"])
-            if fmt in ("turtle", "trig") and (numeric or rng.random() < 0.3):
-                cand = [lab for lab in doc_labels(stmts) if numeric and lab not in DIGIT_LABELS or rng.random() < 0.5]
+            if n3twice and docs:
+                # same statement order, same layout: only the tag IRIs differ (same length)
+                first = docs[0]
+                doc = {"fmt": "n3", "target": target, "variant": first["variant"],
+                       "stmts": [[a, b, tag_id(j, -a - 1) if b == TAGP else c, g] for a, b, c, g in first["stmts"]]}
+                if "anon" in first:
+                    doc["anon"] = list(first["anon"])
+                docs.append(doc)
+                continue
+            if fmt in ("turtle", "trig", "n3") and (numeric or n3twice or rng.random() < 0.3):
+                cand = [lab for lab in doc_labels(stmts)
+                        if (numeric and lab not in DIGIT_LABELS) or n3twice or rng.random() < 0.5]
                 plan = anon_plan(stmts, cand)
+                if fmt == "n3":
+                    plan = plan + [lab for lab in path_plan(stmts, cand) if lab not in plan]
                 if plan:
                     doc["anon"] = plan
             docs.append(doc)
         case = {"plain": plain, "init": init, "docs": docs}
+        if auditable:
+            # a transactional store: the content is written inside an open transaction (or committed first)
+            case["store"] = {"auditable": True, "commit_init": rng.random() < 0.3,
+                             "front": "cg"}
         if rng.random() < 0.25:
             case["reseed"] = rng.choice([0, 1, 20240101])
         return case
@@ -779,6 +864,11 @@ class C12(Suite):
             f["mixed_syntaxes"] = 1
         if case.get("reseed") is not None:
             f["random_reseeded_before_each_call"] = 1
+        if case.get("store"):
+            f["auditable_store"] = 1
+            if any(d.get("fail") is not None for d in case["docs"][1:]) or (
+                    case["init"] and not case["store"].get("commit_init") and any(d.get("fail") is not None for d in case["docs"])):
+                f["failing_call_inside_open_transaction"] = 1
         keys = [("ctx", d["ctx"]) if d.get("ctx") is not None else ("obj", d["obj"]) if d.get("obj") is not None else None
                 for d in case["docs"]]
         for j, d in enumerate(case["docs"]):
@@ -820,6 +910,8 @@ class C12(Suite):
                 yield dict(case, docs=docs[:i] + [dict(d, fail={"rest": []})] + docs[i + 1:])
         if case.get("reseed") is not None:
             yield {k: v for k, v in case.items() if k != "reseed"}
+        if case.get("store"):
+            yield {k: v for k, v in case.items() if k != "store"}
 
     def sweep(self):
         """every ordered pair of syntaxes x two targets x with/without an existing node whose id is the label:
@@ -859,7 +951,7 @@ SUITES = [C12(), C12Machines()]
 
 TRUSTED = [
     "Coq 8.16.1 kernel and the vm_compute evaluator",
-    "the document writers of harness/c12.py (abstract statement list -> nt/nquads/turtle/trig/xml/trix/json-ld/hext text, "
+    "the document writers of harness/c12.py (abstract statement list -> nt/nquads/turtle/trig/n3/xml/trix/json-ld/hext text, "
     "incl. the malformed variants: a broken line / statement / unclosed element / truncated JSON after the listed statements)",
     "the snapshot of harness/c12.py: store content read through Store.triples, blank nodes recognised by id (labels) or by the tag triple they carry",
     "the driver of harness/c12.py: Graph.parse / Dataset.parse with bnode_context=, preserve_bnode_ids=, publicID=, and the direct use of "
@@ -874,9 +966,12 @@ ASSUMPTIONS = [
     "which parser follows which label discipline (Parse/Model.v disc_of, Parse/Machines.v alloc_of) is read off the code and re-established by every run of this check (suites parse_merge and machines)",
     "a malformed document of the suite breaks at a place where no further blank-node label has been read; a malformed JSON-LD document is malformed JSON (nothing is added: the model is given no statements for it)",
     "N3 formulas { ... } (labels scoped to the formula) and collections ( ... ) are not written by the suite",
+    "transactional store = AuditableStore over Memory behind ConjunctiveGraph / Graph (Dataset, N-Quads, HexTuples and N3 refuse that store); "
+    "the content is read from the inner Memory store",
 ]
 RULE = ("a case is an initial store content plus 1-4 parse calls (syntax, target graph, statements over 1-4 labels out of 7 - all-digit "
         "labels included, Turtle/TriG labels optionally written as anonymous [...] nodes, RDF/XML with inner xml:base; options: "
         "bnode_context= dict shared between calls, long-lived parser object, preserve_bnode_ids, publicID, document broken after k statements, "
-        "random.seed(k) before every call) made one after the other; distinct by full content; non-trivial when a label "
+        "random.seed(k) before every call; store = Memory or AuditableStore with an open or committed transaction; N3 documents parsed "
+        "twice with identical layout) made one after the other; distinct by full content; non-trivial when a label "
         "is shared by two calls or equals the id of a blank node already in the store")
